@@ -64,13 +64,41 @@ func genC02(t *rapid.T) c02Case {
 				memFile{Name: "sub/t.env", Content: "Z=1\nA=2\n"})
 		}
 	}
+	// the number of things: a service whose collections are long (library sort routines switch algorithm with
+	// the length, maps grow buckets) and contain ties (several addresses per host, several values per key prefix)
+	if rapid.IntRange(0, 2).Draw(t, "bulk") == 0 {
+		cs.Feature = append(cs.Feature, "long-collections")
+		n := rapid.IntRange(13, 40).Draw(t, "bulkn")
+		var hosts, ports, env, labels, vols, dns, sys, expose, tmpfs, devices, caps, groups, secopt, args, tags []any
+		for i := 0; i < n; i++ {
+			h := fmt.Sprintf("host%d", i%7) // several addresses per host
+			hosts = append(hosts, fmt.Sprintf("%s=10.0.%d.%d", h, i%3, i))
+			ports = append(ports, fmt.Sprintf("%d:%d/%s", 10000+i, 80+i%4, []string{"tcp", "udp"}[i%2]))
+			env = append(env, fmt.Sprintf("K%02d=v%d", (i*7)%n, i))
+			labels = append(labels, fmt.Sprintf("l%02d.%d=v%d", (i*5)%n, i%3, i))
+			vols = append(vols, fmt.Sprintf("/anon%02d", (i*3)%n))
+			dns = append(dns, fmt.Sprintf("10.1.%d.%d", i%2, (i*11)%n))
+			sys = append(sys, fmt.Sprintf("net.ipv4.s%02d=%d", (i*3)%n, i))
+			expose = append(expose, fmt.Sprint(9000+(i*7)%n))
+			tmpfs = append(tmpfs, fmt.Sprintf("/t%02d", (i*5)%n))
+			devices = append(devices, fmt.Sprintf("/dev/d%02d:/dev/x%02d", i, (i*3)%n))
+			caps = append(caps, fmt.Sprintf("CAP_%02d", (i*7)%n))
+			groups = append(groups, fmt.Sprintf("g%02d", (i*5)%n))
+			secopt = append(secopt, fmt.Sprintf("opt%02d", (i*3)%n))
+			args = append(args, fmt.Sprintf("A%02d=%d", (i*7)%n, i))
+			tags = append(tags, fmt.Sprintf("img:t%02d", (i*5)%n))
+		}
+		svcs["bulk"] = map[string]any{"image": "bulk", "extra_hosts": hosts, "ports": ports, "environment": env, "labels": labels, "volumes": vols, "dns": dns, "sysctls": sys,
+			"expose": expose, "tmpfs": tmpfs, "devices": devices, "cap_add": caps, "group_add": groups, "security_opt": secopt,
+			"build": map[string]any{"context": ".", "args": args, "tags": tags, "extra_hosts": hosts, "labels": labels}}
+	}
 	var docs []map[string]any
 	if rapid.IntRange(0, 2).Draw(t, "split") != 0 {
 		cs.Feature = append(cs.Feature, "multi-file")
 		sp := &splitter{t: t, n: rapid.IntRange(2, 3).Draw(t, "nparts"), used: map[string]int{}}
 		// the extends services are not split: put them into the first part afterwards
 		ext := map[string]any{}
-		for _, n := range []string{"mid", "left", "right", "far"} {
+		for _, n := range []string{"mid", "left", "right", "far", "bulk"} {
 			if s, ok := svcs[n]; ok {
 				ext[n] = s
 				delete(svcs, n)
